@@ -89,6 +89,15 @@ func c14Values(deep bool) []namedValue {
 	return vs
 }
 
+// c14Keys: keys of map / object members the key-taking operations are repeated with ("@k<i>" suffix of
+// the operation kind): JSON-pointer syntax, quotes and backslashes, control characters and DEL, line
+// separators, astral and the last code point, HTML-sensitive characters, BSON-sensitive characters.
+var c14Keys = []string{"a/b~c~0~1~01", `"q"\ 'x'`, "c\x00\x07\x0b\x1b\x7f", "\u2028\u2029", "\U0001F600\U0010FFFF", "<&>", "$d.o", "\t\n\r\b\f"}
+
+// keyed kinds: base operation kinds that take a key
+var c14KeyedValue = []string{"map.put", "doc.put"}
+var c14KeyedPlain = []string{"map.remove", "doc.delete"}
+
 // opKinds: how a value is turned into an operation through the public API.
 var c14OpKinds = []string{"map.put", "list.insert", "list.insert2", "list.update", "doc.put", "doc.arrinsert", "doc.arrupdate", "doc.put-nested"}
 
@@ -141,6 +150,14 @@ func toErrD(v orda.Document, e errors.OrdaError) (interface{}, error)  { return 
 
 // c14Run executes one case; returns a violation or nil, plus a digest of the produced operations.
 func c14Run(kind string, nv *namedValue) (v *pt.Violation, digest string, produced int) {
+	fullKind := kind
+	key, key0, objKey := "k", "k0", "obj"
+	if i := strings.Index(kind, "@k"); i >= 0 {
+		var ki int
+		fmt.Sscanf(kind[i+2:], "%d", &ki)
+		kind = kind[:i]
+		key, key0, objKey = c14Keys[ki], c14Keys[ki], c14Keys[ki]
+	}
 	typ := map[string]string{"ma": "map", "li": "list", "do": "doc", "co": "counter", "tx": "list"}[kind[:2]]
 	if kind == "tx" {
 		typ = "list"
@@ -152,16 +169,22 @@ func c14Run(kind string, nv *namedValue) (v *pt.Violation, digest string, produc
 	if nv != nil {
 		vname, val = nv.name, nv.v
 	}
-	sig := func(what string) string { return fmt.Sprintf("C14:%s:%s:%s", what, kind, vname) }
+	sig := func(what string) string { return fmt.Sprintf("C14:%s:%s:%s", what, fullKind, vname) }
 	// prior state
 	switch typ {
 	case "list":
 		r0.li.InsertMany(0, "e0", "e1", "e2")
 	case "map":
 		r0.mp.Put("k0", "v0")
+		if kind == "map.remove" {
+			r0.mp.Put(key0, "v0")
+		}
 	case "doc":
 		r0.doc.PutToObject("arr", []interface{}{"e0", "e1"})
 		r0.doc.PutToObject("obj", map[string]interface{}{"x": "y"})
+		if kind == "doc.delete" {
+			r0.doc.PutToObject(objKey, map[string]interface{}{"x": "y"})
+		}
 	}
 	w.Sync(0)
 	w.Sync(1)
@@ -173,7 +196,7 @@ func c14Run(kind string, nv *namedValue) (v *pt.Violation, digest string, produc
 		var e error
 		switch kind {
 		case "map.put":
-			_, e = toErr2(r0.mp.Put("k", val))
+			_, e = toErr2(r0.mp.Put(key, val))
 		case "list.insert":
 			_, e = toErr2(r0.li.Insert(1, val))
 		case "list.insert2":
@@ -181,7 +204,7 @@ func c14Run(kind string, nv *namedValue) (v *pt.Violation, digest string, produc
 		case "list.update":
 			_, e = toErr2s(r0.li.Update(0, val))
 		case "doc.put":
-			_, e = toErrD(r0.doc.PutToObject("k", val))
+			_, e = toErrD(r0.doc.PutToObject(key, val))
 		case "doc.put-nested":
 			_, e = toErrD(r0.doc.PutToObject("k", map[string]interface{}{"in": val, "l": []interface{}{val}}))
 		case "doc.arrinsert":
@@ -203,7 +226,7 @@ func c14Run(kind string, nv *namedValue) (v *pt.Violation, digest string, produc
 			_, ee := r0.cnt.IncreaseBy(math.MinInt32)
 			e = errOf(ee)
 		case "map.remove":
-			_, ee := r0.mp.Remove("k0")
+			_, ee := r0.mp.Remove(key0)
 			e = errOf(ee)
 		case "list.delete":
 			_, ee := r0.li.Delete(1)
@@ -212,7 +235,7 @@ func c14Run(kind string, nv *namedValue) (v *pt.Violation, digest string, produc
 			_, ee := r0.li.DeleteMany(0, 3)
 			e = errOf(ee)
 		case "doc.delete":
-			_, ee := r0.doc.DeleteInObject("obj")
+			_, ee := r0.doc.DeleteInObject(objKey)
 			e = errOf(ee)
 		case "doc.arrdelete":
 			a, _ := r0.doc.GetFromObject("arr")
@@ -249,13 +272,13 @@ func c14Run(kind string, nv *namedValue) (v *pt.Violation, digest string, produc
 		have := true
 		switch kind {
 		case "map.put":
-			got = r0.mp.Get("k")
+			got = r0.mp.Get(key)
 		case "list.insert":
 			got, _ = r0.li.Get(1)
 		case "list.update":
 			got, _ = r0.li.Get(0)
 		case "doc.put":
-			if d, _ := r0.doc.GetFromObject("k"); d != nil {
+			if d, _ := r0.doc.GetFromObject(key); d != nil {
 				got = d.GetValue()
 			}
 		case "doc.arrupdate":
@@ -378,6 +401,16 @@ func init() {
 		}
 		for _, k := range c14Plain {
 			cases = append(cases, c14Case{Kind: k})
+		}
+		for ki := range c14Keys {
+			for _, k := range c14KeyedValue {
+				for _, vn := range []string{"s-ascii", "nested-2"} {
+					cases = append(cases, c14Case{Kind: fmt.Sprintf("%s@k%d", k, ki), Value: vn})
+				}
+			}
+			for _, k := range c14KeyedPlain {
+				cases = append(cases, c14Case{Kind: fmt.Sprintf("%s@k%d", k, ki)})
+			}
 		}
 		byName := map[string]*namedValue{}
 		for i := range vals {
